@@ -336,6 +336,15 @@ func Monitor(prop string, c Case, sch *Schema, obs []OpObs) []Failure {
 	}
 	txs := splitTx(obs)
 	n := len(sch.Defs)
+	if prop == "C11" || prop == "C20" || prop == "C03" {
+		// a history is the caller's: the same lists are handed to the next machine
+		for li, o := range obs {
+			if o.ArgNote != "" {
+				add(li, "", "the call rewrote the list of states it was called with: %s, after `%s`", o.ArgNote, o.Line)
+				break
+			}
+		}
+	}
 	switch prop {
 	case "C01":
 		var prev []uint64
@@ -517,6 +526,31 @@ func Monitor(prop string, c Case, sch *Schema, obs []OpObs) []Failure {
 			}
 		}
 	case "C03":
+		// a mutation on a machine that is backing off is Canceled and has no effect
+		{
+			backing := false
+			var prevClock []uint64
+			for li, o := range obs {
+				f := strings.Fields(o.Line)
+				if len(f) == 2 && f[0] == "backoff" {
+					backing = f[1] == "1"
+				}
+				if !o.IsOp || o.Crash != "" {
+					continue
+				}
+				switch f[0] {
+				case "add", "remove", "set", "add!", "remove!", "set!", "toggle":
+					if backing && prevClock != nil {
+						if o.ResStr != "canceled" {
+							add(li, "", "backoff: `%s` on a machine that is backing off returned %s instead of Canceled", o.Line, o.ResStr)
+						} else if !eqU64(prevClock, o.Clock) {
+							add(li, "", "backoff: `%s` on a machine that is backing off changed the clock %v -> %v", o.Line, prevClock, o.Clock)
+						}
+					}
+				}
+				prevClock = o.Clock
+			}
+		}
 		// guards: a mutation call at/over the queue limit is Canceled (one
 		// pending Exception excepted) — observed on calls made from handlers
 		limit := 1000
